@@ -1143,7 +1143,9 @@ theorem shed_spec (inj : Inj) (i : Nat) (n : Nat) (s : St) (h : CleanX Z s) :
     CleanX Z (shed inj i n s) ∧ (∀ o, o ≠ .user → ¬ Own s.l.1 o → ¬ Own (shed inj i n s).l.1 o) ∧
       (shed inj i n s).loopOk = s.loopOk := by
   induction n generalizing s with
-  | zero => exact ⟨h, fun _ _ hn => hn, rfl⟩
+  | zero =>
+    unfold shed
+    exact ⟨h.tick _ _, fun o _ hn => by simpa using hn, by simp⟩
   | succ n ih =>
     unfold shed
     split
